@@ -23,7 +23,7 @@ import vlib
 from vlib import log
 
 PID = "C17"
-CORE = "noroottypename,nodupkey,nodirid,nofragdirs"
+CORE = "nodupkey,nodirid,nofragdirs"
 CFGS = "default,cached,sanitize,idhint"
 
 
